@@ -152,6 +152,78 @@ func checkC13(r *Result) {
 			}
 		}
 		r.check(okAll && nEff >= 4, "ONCE-EXECUTE", "(x/dispute/keeper.Keeper).ExecuteVote # success with an effect => Executed=true stored", P.Pos(ev.Pos()), fmt.Sprintf("%d effect sites; failing valuations: %s", nEff, det))
+		// an execution that happened did everything the result implies: burned its part (unless it is zero), returned
+		// the reporter's stake unless the dispute was supported, saved the vote, and stored the dispute after setting the pot
+		{
+			sup := map[string]bool{"const:" + enumVal(P, "x/dispute/types", "VoteResult_SUPPORT"): true, "const:" + enumVal(P, "x/dispute/types", "VoteResult_NO_QUORUM_MAJORITY_SUPPORT"): true}
+			mkRes := func(c string) func(rel *Term) (bool, bool) {
+				return func(rel *Term) (bool, bool) {
+					if rel.Op == "==" && len(rel.Args) == 2 && strings.HasPrefix(rel.Args[0].Op, "field:x/dispute/types.Vote.VoteResult") && rel.Args[1].Op == c {
+						return true, true
+					}
+					return false, false
+				}
+			}
+			var supAtoms []Atom
+			var supNames []string
+			for c := range sup {
+				supAtoms = append(supAtoms, Atom{Name: "result=" + c, Cond: mkRes(c), Stable: true})
+				supNames = append(supNames, "result="+c)
+			}
+			sort.Slice(supAtoms, func(i, j int) bool { return supAtoms[i].Name < supAtoms[j].Name })
+			pe := AnalyzePaths(ev, append([]Atom{
+				{Name: "marked", Event: func(in ssa.Instruction) (bool, int8) {
+					return storesConstToField(in, "x/dispute/types.Vote.Executed", "true"), T
+				}},
+				{Name: "saved", Event: P.CallEvent(descIs("coll:x/dispute/keeper.Keeper.Votes.Set"), T)},
+				{Name: "burned", Event: P.CallEvent(func(c *CallSite) bool { return isBankCall(c, "BurnCoins") }, T)},
+				{Name: "halfZero", Stable: true, Cond: func(rel *Term) (bool, bool) {
+					if rel.Op == "==" && len(rel.Args) == 2 && rel.Args[1].Op == "const:0" && rel.Args[0].Contains("Dispute.BurnAmount") {
+						return true, true
+					}
+					return false, false
+				}},
+				{Name: "returned", Event: P.CallEvent(func(c *CallSite) bool { return c.Callee == "(x/dispute/keeper.Keeper).ReturnSlashedTokens" }, T)},
+				{Name: "potStored", Event: func(in ssa.Instruction) (bool, int8) {
+					if st, ok := in.(*ssa.Store); ok {
+						if fa, ok := st.Addr.(*ssa.FieldAddr); ok && fieldName(fa.X.Type(), fa.Field) == "x/dispute/types.Dispute.VoterReward" {
+							return true, F // the pot is set: the dispute has to be stored after this
+						}
+					}
+					if c, ok := in.(ssa.CallInstruction); ok {
+						if cs := P.siteOf(c); cs != nil && cs.Desc() == "coll:x/dispute/keeper.Keeper.Disputes.Set" {
+							return true, T
+						}
+					}
+					return false, U
+				}},
+				{Name: "potSet", Event: func(in ssa.Instruction) (bool, int8) {
+					if st, ok := in.(*ssa.Store); ok {
+						if fa, ok := st.Addr.(*ssa.FieldAddr); ok && fieldName(fa.X.Type(), fa.Field) == "x/dispute/types.Dispute.VoterReward" {
+							return true, T
+						}
+					}
+					return false, U
+				}},
+			}, supAtoms...))
+			okAll, n, det := true, 0, ""
+			for _, ret := range SuccessReturns(ev) {
+				n++
+				if bad := pe.Require(ret, func(v map[string]bool) bool {
+					if !v["marked"] {
+						return true // nothing was executed on this path (ONCE-EXECUTE: no effect without the mark)
+					}
+					supported := false
+					for _, nm := range supNames {
+						supported = supported || v[nm]
+					}
+					return v["saved"] && (v["burned"] || v["halfZero"]) && (v["returned"] || supported) && v["potSet"] && v["potStored"]
+				}); len(bad) > 0 {
+					okAll, det = false, fmt.Sprint(bad)
+				}
+			}
+			r.check(okAll && n > 0 && len(pe.Matched["halfZero"]) >= 3 && len(pe.Matched[supNames[0]]) > 0 && len(pe.Matched[supNames[1]]) > 0, "ONCE-EXECUTE", "(x/dispute/keeper.Keeper).ExecuteVote # an execution burned its part, returned the stake unless supported, saved the vote and stored the dispute with its pot", P.Pos(ev.Pos()), fmt.Sprintf("%d success returns %s", n, det))
+		}
 		// EXHAUSTIVE
 		for _, es := range P.EnumSwitches(ev) {
 			if es.TypeName == "x/dispute/types.VoteResult" {
@@ -407,6 +479,87 @@ func checkC13(r *Result) {
 			}
 		}
 		r.check(okAll, "PAY-RECORD", FuncName(fn)+" # fee taken => payer recorded", P.Pos(s.Pos()), "a success path takes a dispute fee (PayDisputeFee) without writing a DisputeFeePayer record: that payment can never be refunded or rewarded pro rata")
+	}
+
+	// ---- the converse and the rest of the bookkeeping: a payer record is written only for a fee that was taken, and
+	// a fee that was taken is counted in the stored dispute
+	for _, name := range []string{"(x/dispute/keeper.msgServer).AddFeeToDispute", "(x/dispute/keeper.Keeper).SetNewDispute"} {
+		fn := need(name)
+		if fn == nil {
+			continue
+		}
+		requireAtSuccess(r, "PAY-RECORD", fn, "payer recorded => fee taken ; fee taken => the dispute is stored with it", []Atom{
+			{Name: "paid", Event: P.CallEvent(func(c *CallSite) bool { return c.Callee == "(x/dispute/keeper.Keeper).PayDisputeFee" }, T)},
+			{Name: "recorded", Event: P.CallEvent(descIs("coll:x/dispute/keeper.Keeper.DisputeFeePayer.Set"), T)},
+			{Name: "disputeStored", Event: P.CallEvent(descIs("coll:x/dispute/keeper.Keeper.Disputes.Set"), T)},
+		}, func(v map[string]bool) bool { return (!v["recorded"] || v["paid"]) && (!v["paid"] || v["disputeStored"]) })
+	}
+	// fees are taken in the bond denom only (everything is paid back and burned in it)
+	{
+		denomOK := Atom{Name: "bondDenom", Stable: true, Cond: func(rel *Term) (bool, bool) {
+			if rel.Op == "==" && len(rel.Args) == 2 && strings.HasPrefix(rel.Args[0].Op, "field:github.com/cosmos/cosmos-sdk/types.Coin.Denom") && (rel.Args[1].Op == "global:types.BondDenom" || rel.Args[1].Op == "const:loya") {
+				return true, true
+			}
+			return false, false
+		}}
+		n := 0
+		for _, spec := range [][2]string{
+			{"(x/dispute/keeper.msgServer).AddFeeToDispute", "(x/dispute/keeper.Keeper).PayDisputeFee"},
+			{"(x/dispute/keeper.msgServer).ProposeDispute", "(x/dispute/keeper.Keeper).SetNewDispute"},
+			{"(x/dispute/keeper.msgServer).ProposeDispute", "(x/dispute/keeper.Keeper).AddDisputeRound"},
+		} {
+			fn := need(spec[0])
+			if fn == nil {
+				continue
+			}
+			ps := AnalyzePaths(fn, []Atom{denomOK})
+			for _, cs := range P.CallSitesIn(fn) {
+				if cs.Callee == spec[1] {
+					n++
+					bad := ps.Require(cs.Instr, func(v map[string]bool) bool { return v["bondDenom"] })
+					r.check(len(bad) == 0, "PAY-RECORD", spec[0]+" # "+short(spec[1])+" only for a fee in the bond denom", P.Pos(cs.Pos()), fmt.Sprintf("valuations: %v", statesStr(ps, cs.Instr)))
+				}
+			}
+		}
+		r.check(n == 3, "PAY-RECORD", "fee-taking call sites of the two handlers", "-", fmt.Sprint(n))
+	}
+	if fn := need("(x/dispute/keeper.Keeper).ClaimReward"); fn != nil {
+		requireAtSuccess(r, "ONCE-CLAIM", fn, "a successful claim stored the claimed flag and paid", []Atom{
+			{Name: "flagStored", Event: P.CallEvent(descIs("coll:x/dispute/keeper.Keeper.Voter.Set"), T)},
+			{Name: "paid", Event: P.CallEvent(func(c *CallSite) bool { return strings.HasSuffix(c.Callee, "BankKeeper.SendCoinsFromModuleToAccount") }, T)},
+		}, func(v map[string]bool) bool { return v["flagStored"] && v["paid"] })
+	}
+	if fn := need("(x/dispute/keeper.Keeper).RewardReporterBondToFeePayers"); fn != nil {
+		requireAtSuccess(r, "PRO-RATA", fn, "a successful bond reward was staked for the payer and moved to the bonded pool", []Atom{
+			{Name: "staked", Event: P.CallEvent(func(c *CallSite) bool { return strings.HasSuffix(c.Callee, "ReporterKeeper.AddAmountToStake") }, T)},
+			{Name: "moved", Event: P.CallEvent(func(c *CallSite) bool { return strings.HasSuffix(c.Callee, "BankKeeper.SendCoinsFromModuleToModule") }, T)},
+		}, func(v map[string]bool) bool { return v["staked"] && v["moved"] })
+	}
+	if fn := need("(x/dispute/keeper.Keeper).RefundDisputeFee"); fn != nil {
+		requireAtSuccess(r, "PRO-RATA", fn, "a successful refund went to the account of a payer from balance, to the stake of a payer from bond", []Atom{
+			{Name: "fromBond", Stable: true, Cond: func(rel *Term) (bool, bool) {
+				return strings.HasPrefix(rel.Op, "field:x/dispute/types.PayerInfo.FromBond"), true
+			}},
+			{Name: "toAccount", Event: P.CallEvent(func(c *CallSite) bool { return strings.HasSuffix(c.Callee, "BankKeeper.SendCoinsFromModuleToAccount") }, T)},
+			{Name: "toStake", Event: P.CallEvent(func(c *CallSite) bool { return c.Callee == "(x/dispute/keeper.Keeper).ReturnFeetoStake" }, T)},
+		}, func(v map[string]bool) bool {
+			if v["fromBond"] {
+				return v["toStake"] && !v["toAccount"]
+			}
+			return v["toAccount"] && !v["toStake"]
+		}, "fromBond")
+	}
+	if fn := need("(x/dispute/keeper.msgServer).WithdrawFeeRefund"); fn != nil {
+		requireAtSuccess(r, "ONCE-REFUND", fn, "the sub-unit dust of a refund is kept, and burned once it reaches a unit", []Atom{
+			{Name: "dustStored", Event: P.CallEvent(descIs("coll:x/dispute/keeper.Keeper.Dust.Set"), T)},
+			{Name: "burned", Event: P.CallEvent(func(c *CallSite) bool { return isBankCall(c, "BurnCoins") }, T)},
+			{Name: "noWholeUnit", Stable: true, Cond: func(rel *Term) (bool, bool) {
+				if rel.Op == "==" && len(rel.Args) == 2 && rel.Args[1].Op == "const:0" && rel.Args[0].Contains("TruncateInt") {
+					return true, true
+				}
+				return false, false
+			}},
+		}, func(v map[string]bool) bool { return v["dustStored"] && (v["burned"] || v["noWholeUnit"]) }, "noWholeUnit")
 	}
 
 	// ---- PRO-RATA
@@ -692,4 +845,23 @@ func enumVal(P *Prog, pkg, name string) string {
 		return v.ExactString()
 	}
 	return "?"
+}
+
+// requireAtSuccess: every success return of fn satisfies phi over the given atoms (one obligation). The atoms
+// named in mustMatch must have matched a branch of fn, else the rule would pass vacuously.
+func requireAtSuccess(r *Result, rule string, fn *ssa.Function, what string, atoms []Atom, phi func(map[string]bool) bool, mustMatch ...string) {
+	ps := AnalyzePaths(fn, atoms)
+	okAll, n, det := true, 0, ""
+	for _, ret := range SuccessReturns(fn) {
+		n++
+		if bad := ps.Require(ret, phi); len(bad) > 0 {
+			okAll, det = false, fmt.Sprintf("failing valuations at %s: %v", r.P.Pos(ret.Pos()), bad)
+		}
+	}
+	for _, m := range mustMatch {
+		if len(ps.Matched[m]) == 0 {
+			okAll, det = false, "no branch of the function tests "+m
+		}
+	}
+	r.check(okAll && n > 0, rule, FuncName(fn)+" # "+what, r.P.Pos(fn.Pos()), fmt.Sprintf("%d success returns %s", n, det))
 }
